@@ -218,15 +218,34 @@ func (vm *VM) convertPanic(msg any) error {
 			}
 		}
 	case OpMakeChan, -OpMakeChan:
-		if err, ok := msg.(string); ok && err == "reflect.MakeChan: negative buffer size" {
-			return vm.newPanic(runtimeError("makechan: size out of range"))
+		switch err := msg.(type) {
+		case string:
+			if err == "reflect.MakeChan: negative buffer size" {
+				return vm.newPanic(runtimeError("makechan: size out of range"))
+			}
+		case runtime.Error:
+			if s := err.Error(); s == "makechan: size out of range" {
+				return vm.newPanic(runtimeError(s))
+			}
 		}
 	case OpMakeSlice:
-		if err, ok := msg.(string); ok {
+		switch err := msg.(type) {
+		case string:
 			switch err {
 			case "reflect.MakeSlice: negative len":
 				return vm.newPanic(runtimeError("runtime error: makeslice: len out of range"))
 			case "reflect.MakeSlice: negative cap", "reflect.MakeSlice: len > cap":
+				return vm.newPanic(runtimeError("runtime error: makeslice: cap out of range"))
+			}
+		case runtime.Error:
+			if err.Error() == "runtime: allocation size out of range" {
+				// The size of cap elements is out of range. As gc does, report
+				// the length if it is the length that is out of range.
+				next := vm.fn.Body[vm.pc]
+				b := vm.fn.Body[vm.pc-1].B
+				if vm.intk(next.A, b&(1<<1) != 0) == vm.intk(next.B, b&(1<<2) != 0) {
+					return vm.newPanic(runtimeError("runtime error: makeslice: len out of range"))
+				}
 				return vm.newPanic(runtimeError("runtime error: makeslice: cap out of range"))
 			}
 		}
